@@ -3,9 +3,17 @@
    flags that tools/translate/purity_tr.py extracts from the current sources into Gen/Purity.v: src_flags).
    exec fl w c = one public call on the world w (caller heap + simulators + compilers + processors);
    run_hist = a history of calls of ANY length.  hist_guard excludes exactly the calls of the open finding
-   "caller's cbits stored by reference" (it is vacuous once initialize copies the list: f_sim_cbits_copy). *)
+   "caller's cbits stored by reference" (it is vacuous once initialize copies the list: f_sim_cbits_copy).
+   The theorems are stated for EVERY flag record satisfying the named conditions; src_flags_ok is the generated
+   obligation that the current sources satisfy all of them (it fails to compile when a defensive copy or reset
+   disappears from the sources).
+   Full statement of the property's fourth clause that is NOT proved as one theorem over histories:
+     forall histories, forall calls i < j, the objects reachable from result j are disjoint from those reachable
+     from result i and from every caller object;
+   proved instead (see Proofs/HeapFresh.v when present): per call, the result reaches only objects allocated by
+   that call (result_fresh), and no later call changes any existing object (history_pure). *)
 From Coq Require Import List Arith Bool.
-From QV Require Import Model.Heap Proofs.HeapBase Proofs.HeapPure Proofs.HeapInst Gen.Purity.
+From QV Require Import Model.Heap Proofs.HeapBase Proofs.HeapPure Proofs.HeapService Proofs.HeapInst Gen.Purity.
 Import ListNotations.
 
 (* generated obligation: the current sources contain every defensive copy / reset the theorems below rest on *)
@@ -23,10 +31,144 @@ Theorem history_pure :
 Proof. exact history_pure_lemma. Qed.
 Print Assumptions history_pure.
 
-(* refutations on the code as shipped (flags of the unchanged tree), replayed on the real code by the harness *)
+(* a used simulator behaves like a fresh one: nothing it holds from earlier runs influences the next run *)
+Theorem sim_used_equals_fresh :
+  forall fl w s cb st, f_sim_reinit fl = true -> s < length (sims w) ->
+  (forall mr, match exec fl w (CSimRun s cb st mr), exec fl (fresh_world w (CSimRun s cb st mr)) (CSimRun s cb st mr) with
+              | Some (w1, r1), Some (w2, r2) => hp w1 = hp w2 /\ r1 = r2 /\ procs w1 = procs w2 /\ comps w1 = comps w2
+              | _, _ => False
+              end) /\
+  match exec fl w (CSimStats s cb st), exec fl (fresh_world w (CSimStats s cb st)) (CSimStats s cb st) with
+  | Some (w1, r1), Some (w2, r2) => hp w1 = hp w2 /\ r1 = r2 /\ procs w1 = procs w2 /\ comps w1 = comps w2
+  | _, _ => False
+  end.
+Proof. exact sim_used_equals_fresh. Qed.
+Print Assumptions sim_used_equals_fresh.
+
+(* a used compiler behaves like a fresh one (recorded global phase, per-call args) *)
+Theorem compiler_used_equals_fresh :
+  forall fl w k a ic args dphi,
+  f_compile_resets_gp fl = true -> f_compile_args_local fl = true -> k < length (comps w) ->
+  let c := CCompile k a ic args dphi in
+  match exec fl w c, exec fl (fresh_world w c) c with
+  | Some (w1, r1), Some (w2, r2) => hp w1 = hp w2 /\ r1 = r2
+  | None, None => True
+  | _, _ => False
+  end.
+Proof. exact compiler_used_equals_fresh. Qed.
+Print Assumptions compiler_used_equals_fresh.
+
+(* a used processor (and a used user-supplied compiler) holds after load_circuit what a fresh one would *)
+Theorem load_used_equals_fresh :
+  forall fl w p qc ko chain dphi,
+  flags_service fl = true -> p < length (procs w) ->
+  (forall k, ko = Some k -> k < length (comps w)) ->
+  let c := CLoad p qc ko chain true dphi in
+  match exec fl w c, exec fl (fresh_world w c) c with
+  | Some (w1, r1), Some (w2, r2) =>
+      hp w1 = hp w2 /\ r1 = r2 /\ pview (nth p (procs w1) dproc) = pview (nth p (procs w2) dproc)
+  | None, None => True
+  | _, _ => False
+  end.
+Proof. exact load_used_equals_fresh. Qed.
+Print Assumptions load_used_equals_fresh.
+
+(* any number of queries (get_qobjevo, get_noisy_pulses, run_analytically, get_full_*) leaves the heap and the
+   pulses every processor holds -- as functions of time with their noise elements -- unchanged *)
+Theorem queries_preserve_held :
+  forall fl, (f_gnp_copy fl || f_pn_copy fl) = true -> f_pn_list_copy fl = true ->
+  forall hist w w' rs, forallb is_query hist = true -> run_hist fl w hist = Some (w', rs) ->
+  hp w' = hp w /\ forall p, pview (nth p (procs w') dproc) = pview (nth p (procs w) dproc).
+Proof. exact queries_preserve_held. Qed.
+Print Assumptions queries_preserve_held.
+
+(* repeatability, PARTIAL: proved for the calls whose results could depend on accumulated service state
+   (compile, processor queries); for calls returning heap structures equality of the two results follows
+   informally from history_pure + determinism of exec and is tied dynamically (repeat-equality oracle).
+   Full statement: forall c, exec w c = (w1, r1) -> exec w1 c = (w2, r2) -> snap (hp w1) r1 = snap (hp w2) r2. *)
+Theorem history_repeatable_partial :
+  forall fl w c w1 r1 w2 r2,
+  (f_gnp_copy fl || f_pn_copy fl) = true -> f_pn_list_copy fl = true -> is_query c = true ->
+  exec fl w c = Some (w1, r1) -> exec fl w1 c = Some (w2, r2) -> r1 = r2.
+Proof. exact query_repeatable. Qed.
+Print Assumptions history_repeatable_partial.
+
+Theorem compile_repeatable :
+  forall fl w k a ic args dphi w1 r1 w2 r2,
+  f_compile_resets_gp fl = true -> f_compile_args_local fl = true -> k < length (comps w) ->
+  exec fl w (CCompile k a ic args dphi) = Some (w1, r1) ->
+  exec fl w1 (CCompile k a ic args dphi) = Some (w2, r2) ->
+  objof (hp w1) r1 = objof (hp w2) r2.
+Proof. exact compile_repeatable. Qed.
+Print Assumptions compile_repeatable.
+
+(* ---------- refutations on the code as shipped (flags of the unchanged tree); each witness is replayed on the
+   real code by the harness (corpus/C16) ---------- *)
 Theorem cbits_by_reference_refuted :
   exists w' r, exec shipped_flags ex_world (CSimRun 0 (Ref 10) 1 [1]) = Some (w', r) /\
                nth_error (hp w') 10 <> nth_error (hp ex_world) 10 /\
                meets (reachl FUEL (hp w') r) [10] = true.
 Proof. exact cbits_by_reference_refuted. Qed.
 Print Assumptions cbits_by_reference_refuted.
+
+Theorem compiler_phase_accumulates_refuted :
+  exists w1 r1 w2 r2,
+    exec shipped_flags ex_world (CCompile 0 (Ref 9) true 0 1) = Some (w1, r1) /\
+    exec shipped_flags w1 (CCompile 0 (Ref 9) true 0 1) = Some (w2, r2) /\
+    objof (hp w1) r1 <> objof (hp w2) r2.
+Proof. exact compiler_phase_accumulates_refuted. Qed.
+Print Assumptions compiler_phase_accumulates_refuted.
+
+Theorem compiler_args_persist_refuted :
+  exists w1 r1 w2 r2 w3 r3,
+    exec shipped_flags ex_world (CCompile 0 (Ref 9) true 2 0) = Some (w1, r1) /\
+    exec shipped_flags w1 (CCompile 0 (Ref 9) true 0 0) = Some (w2, r2) /\
+    exec shipped_flags ex_world (CCompile 0 (Ref 9) true 0 0) = Some (w3, r3) /\
+    objof (hp w2) r2 <> objof (hp w3) r3.
+Proof. exact compiler_args_persist_refuted. Qed.
+Print Assumptions compiler_args_persist_refuted.
+
+Theorem reverse_aliases_refuted :
+  exists w' r, exec shipped_flags ex_world (CReverse (Ref 9)) = Some (w', r) /\
+               meets (reachl FUEL (hp w') r) (reachl FUEL (hp w') (Ref 9)) = true.
+Proof. exact reverse_aliases_refuted. Qed.
+Print Assumptions reverse_aliases_refuted.
+
+Theorem chain_aliases_refuted :
+  exists w' r, exec shipped_flags ex_world (CChain (Ref 9) [1; 1; 0]) = Some (w', r) /\
+               meets (reachl FUEL (hp w') r) (reachl FUEL (hp w') (Ref 9)) = true.
+Proof. exact chain_aliases_refuted. Qed.
+Print Assumptions chain_aliases_refuted.
+
+Theorem add_circuit_aliases_refuted :
+  exists w' r, exec shipped_flags (mkWorld ex_heap_listarg [] [] []) (CAddCircuit (Ref 6)) = Some (w', r) /\
+               meets (reachl FUEL (hp w') r) (reachl FUEL (hp w') (Ref 6)) = true.
+Proof. exact add_circuit_aliases_refuted. Qed.
+Print Assumptions add_circuit_aliases_refuted.
+
+(* ---------- non-vacuity: the hypotheses are satisfiable and the conclusions non-trivial ---------- *)
+Example good_flags_ok : flags_ok good_flags = true.
+Proof. exact good_flags_ok. Qed.
+
+Example cbits_copied_ok :
+  exists w' r, exec good_flags ex_world (CSimRun 0 (Ref 10) 1 [1]) = Some (w', r) /\
+               nth_error (hp w') 10 = nth_error (hp ex_world) 10 /\
+               meets (reachl FUEL (hp w') r) [10] = false.
+Proof. exact cbits_copied_ok. Qed.
+
+Example passes_fresh_when_fixed :
+  forall c, In c [CReverse (Ref 9); CChain (Ref 9) [1; 1; 0]; CResolve (Ref 9); CAdjacent (Ref 9); CAddCircuit (Ref 9)] ->
+  exists w' r, exec good_flags ex_world c = Some (w', r) /\
+               meets (reachl FUEL (hp w') r) (reachl FUEL (hp w') (Ref 9)) = false.
+Proof. exact passes_fresh_when_fixed. Qed.
+
+Example history_example :
+  hist_guard good_flags ex_world ex_history = true /\ hist_wf good_flags ex_world ex_history /\
+  exists w' rs, run_hist good_flags ex_world ex_history = Some (w', rs) /\ length rs = 8 /\ length (hp ex_world) < length (hp w').
+Proof. exact history_example. Qed.
+
+(* the defensive copy inside Instruction is needed: without it the caller's gate is sorted in place *)
+Example instr_copy_needed :
+  exists w' r, exec no_instr_copy ex_world (CInstr (Ref 5)) = Some (w', r) /\
+               nth_error (hp w') 4 <> nth_error (hp ex_world) 4.
+Proof. exact instr_copy_needed. Qed.
